@@ -352,6 +352,29 @@ def run(R):
             else:
                 R.ok('C04.ORD.1', inst, site(cx, n.ast), 'guarded by test of %s, occupied edge raises' % txt)
     R.minimum('C04.ORD.1', 3)
+    # ---------------------------------------------------------------- C04.PRV.3 who may enter a node in the dispatch table
+    R.ob('C04.PRV.3', 'a node enters a dispatch table only together with a handler: every insertion is made by the attach function of that table '
+                      '(a node without a handler is the longest-prefix match for every name beneath it and hides the handler attached at a shorter prefix)')
+    for aq, trie in ATTACH:
+        af = P.funcs[aq]
+        n_ins = 0
+        for q, f in sorted(P.funcs.items()):
+            if (f.mod, f.cls) != (af.mod, af.cls):
+                continue
+            cx2 = ctx(R, q)
+            for (n, kind, key) in trie_accesses(cx2, trie):
+                if kind not in ('setdefault', 'set', '__setitem__'):
+                    continue
+                n_ins += 1
+                inst = f'{af.mod}.{af.cls}.{trie} :: insertion in {q.rsplit(".", 1)[1]}'
+                if q == aq or q.startswith(aq + '.<'):
+                    R.ok('C04.PRV.3', inst, site(cx2, n.ast))
+                else:
+                    R.fail('C04.PRV.3', inst, q, n.ast, f'{q.rsplit(".", 1)[1]}() enters a node in self.{trie} without attaching a handler to it: dispatch takes '
+                           'the node of the longest matching prefix, finds no callback there and drops the Interest, although a handler is attached at a '
+                           'shorter prefix of the name', site(cx2, n.ast))
+        R.need(n_ins >= 1, f'{aq}: no insertion into self.{trie} found')
+    R.minimum('C04.PRV.3', 3)
 
     # ---------------------------------------------------------------- C04.SIB.1 detach deletes from the attach trie
     R.ob('C04.SIB.1', 'detach removes the key from the same trie that attach fills and dispatch reads')
